@@ -66,6 +66,7 @@ type Sys struct {
 	del   map[string]*big.Int // "<delegator hex>/<validator index>" -> tokens
 	votes map[string]string // "<voter hex>" -> option description
 	pid   uint64
+	slashed bool
 }
 
 var stakingAddr = common.HexToAddress(syscontracts.StakingContractAddress)
@@ -145,6 +146,7 @@ func (s *Sys) Clone() bfs.System {
 	for k, v := range s.del {
 		n.del[k] = new(big.Int).Set(v)
 	}
+	n.slashed = s.slashed
 	n.votes = map[string]string{}
 	for k, v := range s.votes {
 		n.votes[k] = v
@@ -152,7 +154,12 @@ func (s *Sys) Clone() bfs.System {
 	return &n
 }
 
-func (s *Sys) Ops() []string { return s.cfg.Ops }
+func (s *Sys) Ops() []string {
+	if s.slashed {
+		return nil // the search ends after a slash (the reference model keeps shares 1:1 with tokens)
+	}
+	return s.cfg.Ops
+}
 
 func (s *Sys) valArg(a string) string {
 	switch a {
@@ -296,6 +303,48 @@ func (s *Sys) Apply(op string) (out, class string, viols []bfs.Viol) {
 	add := func(sig, d string) { viols = append(viols, bfs.Viol{Sig: "C17:" + sig, Detail: d}) }
 	f := strings.Fields(op)
 	before := s.observe()
+	if f[0] == "slash" {
+		// the staking module slashes validator v0 for an infraction at height 1 (before every unbonding of the history): what it
+		// "burns" from the bonded and the not-bonded pool must arrive in the fee collector, total supply unchanged
+		var serr interface{}
+		s.w.Do(s.c, func(ctx sdk.Context) {
+			defer func() { serr = recover() }()
+			va, _ := sdk.ValAddressFromBech32(s.vals[0])
+			v, ok := s.c.App.StakingKeeper.GetValidator(ctx, va)
+			if !ok {
+				panic("validator not found")
+			}
+			cons, err := v.GetConsAddr()
+			if err != nil {
+				panic(err)
+			}
+			s.c.App.StakingKeeper.Slash(ctx, cons, 1, v.ConsensusPower(s.c.App.StakingKeeper.PowerReduction(ctx)), sdk.NewDecWithPrec(5, 1))
+		})
+		s.slashed = true
+		after := s.observe()
+		if serr != nil {
+			add("slash-panics", fmt.Sprint(serr))
+			return "slash panicked", "slash", viols
+		}
+		num := func(x string) *big.Int { v, _ := new(big.Int).SetString(x, 10); return v }
+		pools := new(big.Int).Add(num(before.bal["bonded_tokens_pool"]), num(before.bal["not_bonded_tokens_pool"]))
+		pools.Sub(pools, new(big.Int).Add(num(after.bal["bonded_tokens_pool"]), num(after.bal["not_bonded_tokens_pool"])))
+		gained := new(big.Int).Sub(num(after.bal["collector+distribution"]), num(before.bal["collector+distribution"]))
+		class = "slash (nothing to burn)"
+		if pools.Sign() > 0 {
+			class = "slash burns from the staking pools"
+			if num(before.bal["not_bonded_tokens_pool"]).Cmp(num(after.bal["not_bonded_tokens_pool"])) > 0 {
+				class = "slash burns from the bonded and the not-bonded pool"
+			}
+		}
+		if before.supply != after.supply {
+			add("total-supply-changed", fmt.Sprintf("slash: %s -> %s", before.supply, after.supply))
+		}
+		if pools.Cmp(gained) != 0 {
+			add("burned-coins-not-in-fee-collector", fmt.Sprintf("slash: the staking pools lost %s, fee collector + distribution gained %s", pools, gained))
+		}
+		return "slashed", class, viols
+	}
 	if f[0] == "advance" {
 		for i := 0; i < 10; i++ {
 			s.w.Block(s.c)
